@@ -176,7 +176,7 @@ func (r Rec) String() string {
 type Result struct {
 	Recs    []Rec
 	Err     string
-	ErrKind string // missing-ttl | no-origin | range | include-off | include-missing | other
+	ErrKind string // missing-ttl | no-origin | range | generate-template | include-off | include-missing | other
 	ErrLine *Line  // the line that is invalid
 	Unspec  string
 }
@@ -314,20 +314,24 @@ func (in *interp) unspec(format string, a ...any) bool {
 }
 
 // omittedTTL: "$TTL value, else the most recently stated TTL, else the configured default".
-func (in *interp) omittedTTL(st *state) (v uint32, unspec bool, err string) {
+// unspec: the statement leaves open which TTL applies (there is one under every reading);
+// stop: under one reading there is a TTL, under another the line is invalid.
+func (in *interp) omittedTTL(st *state) (v uint32, unspec, stop bool, err string) {
+	definite := st.dollar.set || st.last.set || in.cfg.DefaultTTL != nil
+	open := func() (uint32, bool, bool, string) { return 0, definite, !definite, "" }
 	switch {
 	case st.dollar.unspec:
-		return 0, true, ""
+		return open()
 	case st.dollar.set:
-		return st.dollar.v, false, ""
+		return st.dollar.v, false, false, ""
 	case st.last.unspec:
-		return 0, true, ""
+		return open()
 	case st.last.set:
-		return st.last.v, false, ""
+		return st.last.v, false, false, ""
 	case in.cfg.DefaultTTL != nil:
-		return *in.cfg.DefaultTTL, false, ""
+		return *in.cfg.DefaultTTL, false, false, ""
 	}
-	return 0, false, "omitted TTL with no $TTL, no previous TTL and no configured default"
+	return 0, false, false, "omitted TTL with no $TTL, no previous TTL and no configured default"
 }
 
 func parseUint(s string, bits int) (uint32, bool) {
@@ -454,9 +458,12 @@ func (in *interp) record(st *state, l *Line, generated bool) bool {
 	} else if generated {
 		r.TTLUnspec = true // DESIGN C06 "Not demanded": the TTL a $GENERATE body inherits
 	} else {
-		v, u, e := in.omittedTTL(st)
+		v, u, stop, e := in.omittedTTL(st)
 		if e != "" {
 			return in.fail(l, "missing-ttl", "%s", e)
+		}
+		if stop {
+			return in.unspec("omitted TTL after an $INCLUDE/$GENERATE that stated the only TTL so far")
 		}
 		r.TTL, r.TTLUnspec = v, u
 	}
@@ -551,8 +558,8 @@ func Expand(t string, it int64) (string, string) {
 				base = f[2]
 			}
 			v := it + off
-			if v < 0 {
-				return "", "neg"
+			if v < 0 || v > 1<<31-1 {
+				return "", "neg" // outside 0..2^31-1: not fixed by the statement
 			}
 			var s string
 			switch base {
@@ -611,15 +618,21 @@ func (in *interp) generate(st *state, l *Line) bool {
 	if (stop-start)/step+1 > MaxGenerate {
 		return in.fail(l, "range", "$GENERATE range %q yields more than %d records", l.Range, MaxGenerate)
 	}
+	// a modifier that leaves 0..2^31-1 anywhere in the range puts the whole directive outside the limits
+	// the statement speaks about (BIND and the library reject it as a whole)
+	for _, it := range []int64{start, start + (stop-start)/step*step, stop} {
+		_, e1 := Expand(l.LHS, it)
+		_, e2 := Expand(l.RHS, it)
+		if e1 == "neg" || e2 == "neg" {
+			return in.unspec("$GENERATE modifier yields a value outside 0..2^31-1")
+		}
+	}
 	sub := *st // own owner/TTL carry; origin is the current one
 	for it := start; it <= stop; it += step {
 		lhs, e1 := Expand(l.LHS, it)
 		rhs, e2 := Expand(l.RHS, it)
-		if e1 == "neg" || e2 == "neg" {
-			return in.unspec("$GENERATE modifier yields a negative value")
-		}
 		if e1 != "" || e2 != "" {
-			return in.fail(l, "other", "$GENERATE template: %s%s", e1, e2)
+			return in.fail(l, "generate-template", "$GENERATE template: %s%s", e1, e2)
 		}
 		gl := Line{Kind: Record, HasOwner: true, Owner: lhs, TTL: l.TTL, Class: l.Class, Type: l.Type, RData: WordsToRData(l.Type, rhs)}
 		if in.record(&sub, &gl, true) {
